@@ -232,14 +232,27 @@ func visitInline(fw *formatWriter, source []byte, cursor *commonmark.Cursor) boo
 			return false
 		}
 
+		// digits is the number of ASCII digits that are all the line holds so far,
+		// or -1 once the line holds anything else.
+		digits := leadingDigits(source, cursor)
 		for s := spanSlice(source, child.Span()); len(s) > 0; {
 			r, n := utf8.DecodeRune(s)
 			if r == '\n' && cursor.ParentBlock().Kind() == commonmark.SetextHeadingKind {
 				s = s[n:]
 				continue
 			}
-			if strings.ContainsRune(`\[]*_-=<>&#~`+"`", r) {
+			switch {
+			case strings.ContainsRune(`\[]*_-=<>&#~`+"`", r):
 				fw.s(`\`)
+			case digits == 0 && r == '+' && endsListMarker(s[n:]),
+				1 <= digits && digits <= 9 && (r == '.' || r == ')') && endsListMarker(s[n:]):
+				// Would be read back as a list marker.
+				fw.s(`\`)
+			}
+			if digits >= 0 && '0' <= r && r <= '9' {
+				digits++
+			} else {
+				digits = -1
 			}
 			fw.b(s[:n])
 			s = s[n:]
@@ -254,6 +267,42 @@ func visitInline(fw *formatWriter, source []byte, cursor *commonmark.Cursor) boo
 		fw.b(spanSlice(source, child.Span()))
 		return false
 	}
+}
+
+// leadingDigits reports how many ASCII digits precede the cursor's text node on its line
+// when the line holds nothing else, or -1 otherwise.
+func leadingDigits(source []byte, cursor *commonmark.Cursor) int {
+	parent := cursor.Parent()
+	if parent.Block() == nil {
+		return -1
+	}
+	n := 0
+	for i := cursor.Index() - 1; i >= 0; i-- {
+		prev := parent.Child(i).Inline()
+		if prev == nil {
+			return -1
+		}
+		switch prev.Kind() {
+		case commonmark.SoftLineBreakKind, commonmark.HardLineBreakKind:
+			return n
+		case commonmark.IndentKind:
+		case commonmark.TextKind:
+			for _, c := range spanSlice(source, prev.Span()) {
+				if c < '0' || c > '9' {
+					return -1
+				}
+				n++
+			}
+		default:
+			return -1
+		}
+	}
+	return n
+}
+
+// endsListMarker reports whether a list marker could end before rest.
+func endsListMarker(rest []byte) bool {
+	return len(rest) == 0 || rest[0] == ' ' || rest[0] == '\t' || rest[0] == '\n' || rest[0] == '\r'
 }
 
 func postInline(fw *formatWriter, source []byte, cursor *commonmark.Cursor) {
